@@ -214,13 +214,33 @@ Definition hwarp_default_status (js : list hrej) : Z :=
   | j :: r => hrej_status (fold_left hprefer r j)
   end.
 
+(* err.find::<warp::reject::K>().is_some(): is a rejection of that kind anywhere in the combined rejection? *)
+Definition hrej_kind (j : hrej) : option hwarpkind :=
+  match j with
+  | RjMethod => Some WMethodNotAllowed | RjLengthRequired => Some WLengthRequired | RjTooLarge => Some WPayloadTooLarge
+  | RjMediaType => Some WUnsupportedMediaType
+  | RjNotFound | RjBody _ | RjApi _ => None
+  end.
+Definition hhas_kind (k : hwarpkind) (js : list hrej) : bool :=
+  existsb (fun j => match hrej_kind j with Some k' => hwarpkind_eqb k k' | None => false end) js.
+(* the if / else-if chain over warp's own rejections: the first row whose kind is present *)
+Fixpoint hfind_warp (rows : list (hwarpkind * (Z * Z))) (js : list hrej) : option (Z * Z) :=
+  match rows with
+  | [] => None
+  | (k, r) :: rest => if hhas_kind k js then Some r else hfind_warp rest js
+  end.
+
 Definition hrecover (js : list hrej) : hreply :=
   match hfind_body js with
   | Some m => mk_hreply H_REJ_BODY_STATUS (Some (hclassify H_REJ_BODY_ROWS H_REJ_BODY_DEFAULT m)) false
   | None =>
     match hfind_api js with
     | Some c => mk_hreply H_REJ_API_STATUS (Some c) false
-    | None => mk_hreply (hwarp_default_status js) None false      (* Err(err): warp renders it, text/plain *)
+    | None =>
+      match hfind_warp H_REJ_WARP_ROWS js with
+      | Some (st, c) => mk_hreply st (Some c) false
+      | None => mk_hreply (hwarp_default_status js) None false      (* Err(err): warp renders it, text/plain *)
+      end
     end
   end.
 
@@ -267,6 +287,9 @@ Definition HDoc_CHECKS : list (hbytes * list hcheck) :=
    (HDoc_get_appointment, [mk_hcheck FLocator CkNonEmpty 2; mk_hcheck FLocator (CkSize 16) 4; mk_hcheck FSignature CkNonEmpty 2]);
    (HDoc_get_subscription_info, [mk_hcheck FSignature CkNonEmpty 2]);
    (HDoc_ping, [])].
+
+(* warp rejections answered with a JSON error of their own: an unsupported content-type is 415 + invalid request format *)
+Definition HDoc_WARP_ROWS : list (hwarpkind * (Z * Z)) := [(WUnsupportedMediaType, (415, 6))].
 
 (* the monitor's reading of "a documented status" *)
 Definition hstatus_okb (s : Z) : bool := Z.eqb s 200 || ((400 <=? s) && (s <? 500)) || Z.eqb s 503.
